@@ -652,7 +652,11 @@ pub fn run(ctx: &Ctx, c06: bool) -> i32 {
     } else {
       // deep tier: radii around the thresholds k in {d-1, d, d+1, d+2}, + a cone of ~16 cells across
       let mut rs: Vec<f64> = vec![];
-      for k in [d as i32 - 4, d as i32 - 1, d as i32, d as i32 + 1, d as i32 + 2] {
+      let mut ks = vec![d as i32 - 5, d as i32 - 4, d as i32 - 1, d as i32, d as i32 + 1, d as i32 + 2];
+      if !quick {
+        ks.insert(0, d as i32 - 7);
+      }
+      for k in ks {
         if (0..30).contains(&k) {
           for f in [0.7, 0.9, 0.999, 1.0, 1.05] {
             rs.push(t[k as usize] * f);
